@@ -40,6 +40,158 @@ theorem applyTimeFloor_le_sample (minAge : Int64) (sampled standardFloor : UInt6
   · exact UInt64.le_refl _
   · rename_i hn; exact UInt64.le_of_lt (UInt64.not_le.mp hn)
 
+/-! ## Guards and floor arithmetic of `onNewBlock`, `onNewL1Head`, `pruneUpto`, `PruneBlockDataUpto`
+
+The translator also regenerates single EXPRESSIONS: the condition of the k-th `if` of a function or the right-hand
+side of an assignment (see `gen/targets.json`). These are the comparisons and subtractions in which an off-by-one
+or a swapped operand would change what the pruner keeps; each is shown to be the corresponding piece of the model. -/
+
+/-- `onNewBlock`'s first guard (L1 head at or below the block, or fewer blocks than the retention). -/
+theorem l2Guard_eq (c : Cfg) (l1 blockNum : UInt64) :
+    prunerL2Guard l1 blockNum c.retained = l2Guard c l1 blockNum := rfl
+
+/-- `onNewBlock`: `standardFloor := block.Number - p.numRetainedBlocks`, the model's `l2Keep` without a minimum age. -/
+theorem l2Keep_standard (c : Cfg) (sampled blockNum : UInt64) (within : Bool) (h : c.minAge = false) :
+    l2Keep c sampled blockNum within = prunerL2StandardFloor blockNum c.retained := by
+  simp [l2Keep, prunerL2StandardFloor, h]
+
+/-- `onNewBlock` with a minimum age, the block inside the time window: the regenerated `applyTimeFloor` of the
+regenerated standard floor. -/
+theorem l2Keep_minAge (c : Cfg) (minAge : Int64) (sampled blockNum : UInt64) (hm : c.minAge = (minAge != 0))
+    (h : c.minAge = true) :
+    l2Keep c sampled blockNum true =
+      prunerApplyTimeFloor (prunerL2StandardFloor blockNum c.retained) minAge sampled := by
+  rw [applyTimeFloor_eq c minAge sampled _ hm]
+  simp [l2Keep, prunerL2StandardFloor, h]
+
+/-- The stale-event test added by the repair: the model's `h < n` on naturals is the code's `block.Number > chainHeight`. -/
+theorem l2StaleEvent_eq (n h : UInt64) : prunerL2StaleEvent n h = decide (h.toNat < n.toNat) := by
+  simp [prunerL2StaleEvent, UInt64.lt_iff_toNat_lt]
+
+/-- The coalescing counter test. -/
+theorem l2Coalesce_eq (c : Cfg) (p : UInt64) : prunerL2Coalesce p c.l2PerPrune = decide (p < c.l2PerPrune) := rfl
+
+/-- `onNewL1Head`: guard and floor, for every chain height that fits the key (`uint64`). -/
+theorem l1Keep_eq (c : Cfg) (minAge : Int64) (sampled l1 height : UInt64) (hm : c.minAge = (minAge != 0)) :
+    l1Keep c sampled height.toNat l1 =
+      if prunerL1Guard l1 height c.retained then none
+      else some (prunerApplyTimeFloor (l1 - c.retained) minAge sampled) := by
+  rw [applyTimeFloor_eq c minAge sampled _ hm]
+  simp only [l1Keep, prunerL1Guard, ge_iff_le, UInt64.le_iff_toNat_le]
+
+/-- `pruneUpto`: the shared floor is raised to `oldestBlockToKeep - 1` exactly when `oldestBlockToKeep > 0`. -/
+theorem raiseForPrune_eq (state keep : UInt64) :
+    raiseForPrune state keep = if prunerRaisesFloor keep then raiseTo state (keep - 1) else state := by
+  simp [raiseForPrune, prunerRaisesFloor]
+
+/-- `PruneBlockDataUpto`: the header carve-out (`BlockHashLag` headers below the range end survive), with the
+constant read from core/block.go. -/
+theorem headerEnd64_eq (rangeEnd : UInt64) :
+    headerEnd64 rangeEnd =
+      if prunerHeaderCarveOutApplies rangeEnd coreBlockHashLag then prunerHeaderEnd rangeEnd coreBlockHashLag else 0 := by
+  have : UInt64.ofNat blockHashLag = coreBlockHashLag := by decide
+  simp [headerEnd64, prunerHeaderCarveOutApplies, prunerHeaderEnd, this]
+
+/-- `pruneAggregatedBloomFiltersUpto`: which persisted event-index windows a prune deletes, with the window
+size read from core/aggregated_bloom_filter.go. -/
+theorem aggEnd_eq (rangeEnd : UInt64) :
+    aggEnd rangeEnd.toNat =
+      if prunerAggNothingToPrune rangeEnd coreNumBlocksPerFilter then none
+      else some (prunerAggOldestKept rangeEnd coreNumBlocksPerFilter).toNat := by
+  have hk : coreNumBlocksPerFilter.toNat = numBlocksPerFilter := by decide
+  simp only [aggEnd, prunerAggNothingToPrune, prunerAggOldestKept, UInt64.lt_iff_toNat_lt, hk]
+  split
+  · simp [*]
+  · rename_i h
+    simp only [h, decide_false, Bool.false_eq_true, if_false, Option.some.injEq]
+    have hm : (rangeEnd % coreNumBlocksPerFilter).toNat = rangeEnd.toNat % numBlocksPerFilter := by
+      rw [UInt64.toNat_mod, hk]
+    have hle : rangeEnd % coreNumBlocksPerFilter ≤ rangeEnd := by
+      rw [UInt64.le_iff_toNat_le, hm]; exact Nat.mod_le _ _
+    rw [UInt64.toNat_sub_of_le _ _ hle, hm]
+
+/-! ## The shared retention floor (pruner/retention.go) and the min-age binary search -/
+
+/-- `RetentionFloor.raiseTo`: one uncontended pass of the compare-and-swap loop on the raw word. -/
+theorem raiseTo_eq (state floor : UInt64) :
+    raiseTo state floor = if floorRaiseIgnored floor state then state else floorRaiseNewState floor := by
+  simp [raiseTo, floorRaiseIgnored, floorRaiseNewState]
+
+/-- `RetentionFloor.Seed`: `raiseTo(max(oldest, 1) - 1)`. -/
+theorem seedState_eq (state oldest : UInt64) : seedState state oldest = raiseTo state (floorSeedValue oldest) := by
+  have : umax oldest 1 = max oldest 1 := by
+    simp only [umax]
+    exact (Eq.symm (UInt64.eq_of_toBitVec_eq rfl) : max oldest 1 = if oldest ≤ 1 then 1 else oldest).symm
+  simp [seedState, floorSeedValue, this]
+
+/-- `RetentionFloor.floor` and the seeded branch of `RequireStateRetainedByBlockNumber` /
+`StateRootIfStateRetainedByBlockNumber`: the model's test `n < (floorState - 1).toNat` under `floorState ≠ 0`
+is the code's `seeded` flag and `blockNumber < f` on `f = s - 1` (the two functions carry the same test). -/
+theorem floor_refusal_eq (state n : UInt64) :
+    (state ≠ 0 ∧ n.toNat < (state - 1).toNat) ↔
+      (floorUnseeded state = false ∧ floorRefusesBelow n (floorValue state) = true) := by
+  simp [floorUnseeded, floorRefusesBelow, floorValue, UInt64.lt_iff_toNat_lt]
+
+theorem floor_refusal_same_in_both_readers (n f : UInt64) : floorRootRefusesBelow n f = floorRefusesBelow n f := rfl
+
+/-- The legacy upper bound: `blockNumber > height`. -/
+theorem floor_upper_bound_eq (n h : UInt64) : floorRefusesAboveHeight n h = decide (n.toNat > h.toNat) := by
+  simp [floorRefusesAboveHeight, UInt64.lt_iff_toNat_lt]
+
+/-- One iteration of `FindOldestBlockAtOrAfter`'s loop for operands that do not wrap (`low ≤ high`, as the
+loop keeps them): the midpoint, the comparison with the cut-off and the two successor intervals are the model's
+`findOldestLoop` step. -/
+theorem findOldest_step_eq (ts : Nat → Nat) (cutoff : UInt64) (fuel : Nat) (low high t : UInt64)
+    (hlh : low.toNat < high.toNat) (ht : ts (findOldestMid low high).toNat = t.toNat) :
+    findOldestLoop ts cutoff.toNat (fuel + 1) low.toNat high.toNat =
+      if findOldestTooOld t cutoff
+      then findOldestLoop ts cutoff.toNat fuel ((findOldestMid low high).toNat + 1) high.toNat
+      else findOldestLoop ts cutoff.toNat fuel low.toNat (findOldestMid low high).toNat := by
+  have hle : low ≤ high := by rw [UInt64.le_iff_toNat_le]; omega
+  have hmid : (findOldestMid low high).toNat = low.toNat + (high.toNat - low.toNat) / 2 := by
+    simp only [findOldestMid]
+    have h1 : (high - low).toNat = high.toNat - low.toNat := UInt64.toNat_sub_of_le _ _ hle
+    have h2 : ((high - low) / 2).toNat = (high.toNat - low.toNat) / 2 := by
+      rw [UInt64.toNat_div, h1]; rfl
+    rw [UInt64.toNat_add, h2]
+    have := high.toNat_lt
+    exact Nat.mod_eq_of_lt (by omega)
+  rw [findOldestLoop]
+  simp only [hlh, if_true]
+  rw [← hmid, ht]
+  simp [findOldestTooOld, UInt64.lt_iff_toNat_lt]
+
+/-- The successor of the midpoint does not wrap inside the loop (`mid < high`). -/
+theorem findOldest_nextLow (low high : UInt64) (hlh : low.toNat < high.toNat) :
+    (findOldestNextLow (findOldestMid low high)).toNat = (findOldestMid low high).toNat + 1 := by
+  have hle : low ≤ high := by rw [UInt64.le_iff_toNat_le]; omega
+  have hmid : (findOldestMid low high).toNat = low.toNat + (high.toNat - low.toNat) / 2 := by
+    simp only [findOldestMid]
+    have h1 : (high - low).toNat = high.toNat - low.toNat := UInt64.toNat_sub_of_le _ _ hle
+    have h2 : ((high - low) / 2).toNat = (high.toNat - low.toNat) / 2 := by
+      rw [UInt64.toNat_div, h1]; rfl
+    rw [UInt64.toNat_add, h2]
+    have := high.toNat_lt
+    exact Nat.mod_eq_of_lt (by omega)
+  simp only [findOldestNextLow, UInt64.toNat_add]
+  have := high.toNat_lt
+  have h1 : (1 : UInt64).toNat = 1 := rfl
+  rw [h1]
+  exact Nat.mod_eq_of_lt (by omega)
+
+/-- The two window tests around the loop. -/
+theorem findOldest_window_tests (lower upper low : UInt64) :
+    findOldestEmptyWindow lower upper = decide (lower.toNat > upper.toNat) ∧
+    findOldestNoneFound low upper = decide (low.toNat > upper.toNat) := by
+  simp [findOldestEmptyWindow, findOldestNoneFound, UInt64.lt_iff_toNat_lt]
+
+theorem numBlocksPerFilter_eq : numBlocksPerFilter = coreNumBlocksPerFilter.toNat := by decide
+
+theorem blockHashLag_eq : blockHashLag = coreBlockHashLag.toNat := by decide
+
+example : prunerL2Guard 5 5 2 = true ∧ prunerL2Guard 6 5 2 = false ∧ prunerL1Guard 5 5 2 = true ∧
+    prunerL1Guard 4 5 2 = false ∧ prunerHeaderEnd 25 coreBlockHashLag = 15 := by decide
+
 example : prunerApplyTimeFloor 100 0 7 = 100 ∧ prunerApplyTimeFloor 100 5 7 = 7 ∧ prunerApplyTimeFloor 100 5 700 = 100 := by
   decide
 
